@@ -13,7 +13,7 @@ CHECK = {
     "level_note": "A kill is modelled as process death between (or in the middle of) system calls with the kernel's view of "
                   "the files surviving (no power loss / no reordering of metadata and data on the disk, no fsync semantics). "
                   "Payloads are 12 KB so that the stream buffer is flushed several times during a dump.",
-    "quick_deadline": 80,
+    "quick_deadline": 90,
     "thorough_deadline": 600,
     "parts": [{"name": "restart", "bin": "c14_restart"}],
     "assumptions": [
